@@ -18,11 +18,15 @@ META = {
     "C24": {
         "text": "TLC checks the advertiser acceptor (Advertising.tla) composed with every application call / radio "
                 "callback exhaustively; TLC-generated input sequences (all 7 channel maps, map changes between "
-                "transmissions, interval changes 20 ms/100 ms/10.24 s/19 ms, start/stop/count/connect/disconnect "
-                "sequences, random deep ones) are replayed on the real link_layer<> over a harness-owned scheduled radio "
-                "and every call and every schedule_advertisment (channel, time, count) is validated by TLC.",
+                "transmissions, run-time intervals 20/21/33/100/152/1022/10239/10240 ms and the ignored 19/10241 ms, "
+                "compile-time advertising_interval<20|33|21|152|1022|10239|10240>, start/stop/count/connect/disconnect "
+                "sequences, runs of >= 12 advertising events per configured interval so that every pseudo random delay "
+                "including 0 ms is observed, random deep ones) are replayed on the real link_layer<> over a harness-owned "
+                "scheduled radio and every call and every schedule_advertisment (channel, time in us, count) is validated "
+                "by TLC: event starts are >= interval and <= interval rounded up to 0.625 ms + 10 ms apart.",
         "note": "time is the radio's T0 + when (scheduled_radio.hpp contract, no PDU air time); tolerances T1-T4 named in "
-                "Advertising.tla (map call during a running sequence, count = PDUs, interval set, type change); "
+                "Advertising.tla (map call during a running sequence, count = PDUs, interval set, type change, T5 interval "
+                "may be rounded up - never down - to the advInterval unit of 0.625 ms); "
                 "trusted: TLC, harness radio, g++/ASan.",
         "technique": "TLA+ model checking (TLC) + TLC-generated behaviours replayed on the real class + TLC trace validation",
         "design_ref": "5.7"},
@@ -62,7 +66,16 @@ CFG = {
     7: dict(types=[6], wl=True, peer=False),
     8: dict(types=[2], wl=False, peer=False),
     9: dict(types=[0], wl=False, peer=False, manual=True),
+    # compile-time intervals that are no multiples of 0.625 ms (advInterval unit) / 5 ms
+    10: dict(auto=True, varmap=False, variv=False, iv0=33),
+    11: dict(auto=True, varmap=False, variv=False, iv0=21),
+    12: dict(auto=True, varmap=False, variv=False, iv0=152),
+    13: dict(auto=True, varmap=False, variv=False, iv0=1022),
+    14: dict(auto=True, varmap=False, variv=False, iv0=10239),
 }
+IV_MS = [20, 21, 33, 100, 152, 1022, 10239, 10240]     # valid run-time intervals of AdvertisingGen.tla (IvMs without 19, 10241)
+LONG_D = 40          # free operations of the "long" family: >= 12 advertising events with three channels
+MIN_DISTANCES = 11   # event distances to observe per configured interval (bluetoe's delay sequence has period 11)
 
 
 def addr_bytes(k):
@@ -174,8 +187,13 @@ def context(evs, k):
     prev_ch = None
     cause = None
     changed = False
+    iv = None
     for e in evs[:k]:
         n = e["e"]
+        if n == "Reset":
+            iv = e.get("iv_us", 0) // 1000
+        elif n == "SetIv" and 20 <= e["ms"] <= 10240:
+            iv = e["ms"]
         if n == "AddCh":
             m.add(e["c"]); changed = True
         elif n == "RemCh":
@@ -188,13 +206,13 @@ def context(evs, k):
         elif "pend" in e:
             pend = e["pend"]
             cause = n
-    return m, pend, prev_ch, cause, changed
+    return m, pend, prev_ch, cause, changed, iv
 
 
 def signature(evs, k, d=None):
     e = evs[k]
     n = e["e"]
-    m, pend, prev_ch, cause, changed = context(evs, k)
+    m, pend, prev_ch, cause, changed, iv = context(evs, k)
     ms = "+".join(str(x) for x in sorted(m))
     if n == "AdvTx":
         if e.get("busy"):
@@ -206,7 +224,7 @@ def signature(evs, k, d=None):
                 return "AdvTx:fresh:notfirst:after=%s" % cause
             return "AdvTx:fresh:other:after=%s" % cause
         return "AdvTx:seq:map=%s:prev=%s:ch=%d:when=%s:after=%s%s" % (
-            ms, prev_ch, e["ch"], "0" if e.get("when_us", 0) == 0 else "iv", cause, ":mapcall" if changed else "")
+            ms, prev_ch, e["ch"], "0" if e.get("when_us", 0) == 0 else "iv%sms" % iv, cause, ":mapcall" if changed else "")
     if n == "AdvRx":
         cls = d_class(d, evs, k) if d else "type=%d:len=%d:size=%d" % (e["pdu"][0] & 15 if e["pdu"] else -1,
                                                                       e["pdu"][1] if len(e["pdu"]) > 1 else -1, e["size"])
@@ -238,7 +256,7 @@ def report(c, bad):
 # ------------------------------------------------------------------------------------------
 # C24
 # ------------------------------------------------------------------------------------------
-FAM = {"map": 1, "iv": 2, "ctl": 3, "all": 4}
+FAM = {"map": 1, "iv": 2, "ctl": 3, "all": 4, "long": 5}
 
 
 def plan_no(cfgid, fam, d, maxchg):
@@ -269,17 +287,22 @@ def run_c24(c):
         "starts only 'never on a disabled channel' is demanded",
         "T2: start_advertising(n) counts PDUs (implementation comment + repository tests); the class documentation says events",
         "T3/T4: interval / advertising type changes may take effect at the next event / PDU or later start",
+        "T5: advInterval is a multiple of 0.625 ms (Core Vol 6 Part B 4.4.2.2.1); an interval configured in ms may be rounded "
+        "up to the next multiple, never down: interval <= distance of event starts (us) <= roundup(interval) + 10 ms",
         "the channel map is never emptied (documented precondition)"]
     if c.replay:
         return replay(c, {})
     q = c.quick
-    ids = [1, 2, 3] if q else [1, 2, 3, 4]
+    ids = [1, 2, 3, 10] if q else [1, 2, 3, 4, 10, 11, 12, 13, 14]
+    fixed = [i for i in ids if not CFG[i]["variv"]]
     bfs = [   # (configuration, family, D, MaxChg): every input sequence of the family
         (2, "map", 5 if q else 7, 2 if q else 3),
         (2, "iv", 4 if q else 6, 2 if q else 3),
         (1, "ctl", 3 if q else 4, 0),
         (3, "ctl", 3 if q else 5, 0),
     ] + ([] if q else [(4, "ctl", 4, 0), (1, "map", 6, 3)])
+    # >= 12 advertising events with every configured interval (run-time: first / sixth operation sets it; all 7 maps)
+    bfs += [(2, "long", LONG_D, 1 if q else 2)] + ([] if q else [(1, "long", LONG_D, 1)]) + [(i, "long", LONG_D, 0) for i in fixed]
     sim = [(1, "all", 30 if q else 60, 6 if q else 12), (2, "all", 30 if q else 60, 6 if q else 12)] \
         + ([] if q else [(3, "all", 40, 0), (4, "all", 40, 0)])
     nsim = 100 if q else 800
@@ -315,6 +338,47 @@ def run_c24(c):
     missing = [a for a in need if not c.extra["events_by_action"].get(a)]
     if missing:
         raise vlib.ToolFailure("vacuous: no validated event for %s" % missing)
+    # coverage of the interval rule: distances of consecutive event starts observed per configured interval
+    cov = interval_coverage(jobs)
+    c.extra["event_distances"] = {
+        k: {"n": len(v), "min_minus_interval_us": min(v), "max_minus_interval_us": max(v), "distinct": len(set(v))}
+        for k, v in sorted(cov.items())}
+    want = ["cfg%d:%dms" % (i, CFG[i]["iv0"]) for i in fixed] + ["cfg2:%dms" % ms for ms in IV_MS]
+    thin = [k for k in want if len(cov.get(k, [])) < MIN_DISTANCES]
+    if thin:
+        raise vlib.ToolFailure("vacuous: fewer than %d distances of consecutive advertising events observed for %s" % (MIN_DISTANCES, thin))
+    no0 = [k for k in want if min(cov[k]) > 0]
+    if no0:
+        c.note("no pair of advertising events exactly one interval apart (advDelay 0) observed for %s" % no0)
+
+
+def interval_coverage(jobs):
+    """coverage statistics only (the verdict is TLC's): "cfg<k>:<interval>ms" -> list of (distance between the starts of two
+    consecutive advertising events in us) - interval, for events between which neither the interval nor the channel map
+    was changed nor advertising was restarted."""
+    cov = {}
+    for job in jobs:
+        for first, evs in vlib.split_executions(job["trace"]):
+            iv = start = cfgid = None
+            clean = False
+            for e in evs:
+                n = e["e"]
+                if n == "Reset":
+                    iv, cfgid, start = e["iv_us"], e["cfg"], None
+                elif n == "SetIv":
+                    if 20 <= e["ms"] <= 10240:
+                        iv = e["ms"] * 1000
+                    clean = False
+                elif n == "AdvTx":
+                    if e["when_us"] > 0 or start is None:
+                        if clean and start is not None:
+                            cov.setdefault("cfg%d:%dms" % (cfgid, iv // 1000), []).append(e["t_us"] - start - iv)
+                        start, clean = e["t_us"], True
+                elif n != "Timeout":
+                    clean = False
+                    if n in ("Run", "Start", "StartN", "Stop", "Disc", "AdvRx"):
+                        start = None
+    return cov
 
 
 # ------------------------------------------------------------------------------------------
